@@ -113,6 +113,9 @@ def compare_result(r, exp, typ, acc, lists=True):
             want = [c / f["n"] for c in f["value"]]
             if not np.allclose(got, want, rtol=0, atol=1e-12):
                 bad.append(f"get_result() {got} != {want}")
+            # the sufficient statistics of a choice result stay zero: mean and variance are defined (0) and must not raise
+            if not (eq(r.get_result_mean(), 0) and eq(r.get_result_var(), 0)):
+                bad.append(f"choice result: mean {r.get_result_mean()} / variance {r.get_result_var()}, expected 0 / 0")
     else:
         if not eq(d["value"], fr(f["value"])):
             bad.append(f"value {d['value']} != {fr(f['value'])}")
@@ -310,7 +313,7 @@ def run(ctx):
             if thorough and acc and typ in ("SUM", "RATIO"):
                 nalpha, maxobs = 2, 4        # ~20k states, ~4e5 transitions each
             else:
-                nalpha, maxobs = 2, 3
+                nalpha, maxobs = (3 if typ == "CHOICE" and thorough else 2), 3       # thorough: all three choice indexes
             cfgs.append((typ, acc, nalpha, maxobs))
     model_devs(ctx)
     # one configuration after the other in the thorough tier (the emitted graphs are large), all at once in the quick tier
